@@ -127,8 +127,20 @@ func runC05(p *core.Prog, r *core.Report) {
 		fn := p.Func(pkgStage, "Stages.transition")
 		r.Touch(core.FuncName(fn))
 		setCalls := core.FindInstrs(fn, core.IsCallTo(p.FuncObj(pkgStage, "Stages.setState")))
-		inv := core.FindInstrs(fn, core.IsCallTo(p.FuncObj(pkgStage, "invalidTransition")))
-		okGuard := len(setCalls) == 1 && len(inv) == 1
+		// the refusal: a panic, or a call to a function of the package that never returns normally (invalidTransition)
+		noReturn := func(x ssa.Instruction) bool {
+			if _, ok := x.(*ssa.Panic); ok {
+				return true
+			}
+			if ci, ok := x.(ssa.CallInstruction); ok {
+				if h := core.StaticFn(ci.Common()); h != nil && h.Blocks != nil && h.Pkg == fn.Pkg && len(core.FindInstrs(h, core.IsNormalExit)) == 0 {
+					return true
+				}
+			}
+			return false
+		}
+		inv := core.FindInstrs(fn, noReturn)
+		okGuard := len(setCalls) == 1 && len(inv) >= 1
 		if okGuard {
 			// the setState call is only reachable through an edge `prev == from` true, from being an element of the variadic list
 			var eqEdges []core.Edge
@@ -159,12 +171,11 @@ func runC05(p *core.Prog, r *core.Report) {
 			okGuard = len(eqEdges) > 0 && !reach
 			// every path that does not set the state ends in invalidTransition
 			if okGuard {
-				_, okGuard = core.MustReachAfter(fn, nil, func(x ssa.Instruction) bool { return x == setCalls[0] || x == inv[0] }, nil)
+				_, okGuard = core.MustReachAfter(fn, nil, func(x ssa.Instruction) bool { return x == setCalls[0] || noReturn(x) }, nil)
 			}
 		}
 		r.Check(okGuard, "C05.R1", "transition/guard", "transition writes the new state only when the current state equals one of the allowed previous states, and otherwise calls invalidTransition", "guard shape not found", p.Pos(fn.Pos()))
-		ivf := p.Func(pkgStage, "invalidTransition")
-		r.Check(len(core.FindInstrs(ivf, core.IsNormalExit)) == 0, "C05.R1", "invalidTransition/panics", "an invalid transition panics", "invalidTransition can return", p.Pos(ivf.Pos()))
+		r.Check(len(inv) >= 1, "C05.R1", "invalidTransition/panics", "an invalid transition panics (directly or through a function that never returns)", "no panic on the refusing path", p.Pos(fn.Pos()))
 		// direct setState writers use the documented constants
 		for _, d := range []struct{ fn, to string }{{"Stages.initSegmentsOffset", "NoOp"}, {"Stages.markShadowedUnits", "Shadowed"}} {
 			f := p.Func(pkgStage, d.fn)
@@ -438,13 +449,19 @@ func runC05(p *core.Prog, r *core.Report) {
 				if !isIf {
 					return
 				}
-				if onT, _, okc := core.CondRelation(ifi.Cond, func(v ssa.Value) bool {
+				if onT, onF, okc := core.CondRelation(ifi.Cond, func(v ssa.Value) bool {
 					c, ok := v.(*ssa.Call)
 					return ok && core.CommonCallee(c.Common()) == getState
-				}, func(v ssa.Value) bool { _, ok := v.(*ssa.Const); return ok }); okc && onT == core.OrdEQ {
-					// the advance is reachable only over the `== Completed` edge (an `||` with another condition does not qualify)
-					if _, only := core.OnlyViaEdge(mf, core.Edge{From: ifi.Block(), Idx: 0}, func(x ssa.Instruction) bool { return x == w.Instr }); only {
-						ok = true
+				}, func(v ssa.Value) bool { _, ok := v.(*ssa.Const); return ok }); okc {
+					// the advance is reachable only over the `== Completed` edge, whichever way the test is written (an `||`
+					// with another condition does not qualify)
+					for idx, rel := range []int{onT, onF} {
+						if rel != core.OrdEQ {
+							continue
+						}
+						if _, only := core.OnlyViaEdge(mf, core.Edge{From: ifi.Block(), Idx: idx}, func(x ssa.Instruction) bool { return x == w.Instr }); only {
+							ok = true
+						}
 					}
 				}
 			})
@@ -760,16 +777,70 @@ func checkSchedulerUpdate(p *core.Prog, r *core.Report, rule string) {
 	csn := p.FuncObj(pkgWork, "CmdScheduleNextJob")
 	mc := p.FuncObj(pkgStage, "Stages.MergeCompleted")
 	isMergeOf := func(wantUnit bool, fromCall *types.Func) func(ssa.Instruction) bool {
-		return func(in ssa.Instruction) bool {
-			if core.CalleeOf(in) != ctm {
+		judge := func(srcs ...*core.Sources) bool {
+			has := func(name string) bool {
+				for _, s := range srcs {
+					if hasFieldNamed(s, name) {
+						return true
+					}
+				}
 				return false
 			}
-			args := in.(ssa.CallInstruction).Common().Args
-			src := core.Trace(args[len(args)-1], 0)
-			if fromCall != nil {
-				return src.HasCall(fromCall)
+			hasCall := func(f *types.Func) bool {
+				for _, s := range srcs {
+					if s.HasCall(f) {
+						return true
+					}
+				}
+				return false
 			}
-			return hasFieldNamed(src, "Stage") && hasFieldNamed(src, "Unit") == wantUnit && !src.HasCall(mjs)
+			if fromCall != nil {
+				return hasCall(fromCall)
+			}
+			return has("Stage") && has("Unit") == wantUnit && !hasCall(mjs)
+		}
+		return func(in ssa.Instruction) bool {
+			if core.CalleeOf(in) == ctm {
+				args := in.(ssa.CallInstruction).Common().Args
+				return judge(core.Trace(args[len(args)-1], 0))
+			}
+			// through a helper of the package: the helper issues the merge attempt for (something derived from) one of its
+			// parameters on every path (own stage) / on some path (shadowed stages), and the argument given for that parameter is
+			// what the rule asks for
+			ci, ok := in.(ssa.CallInstruction)
+			if !ok {
+				return false
+			}
+			h := core.StaticFn(ci.Common())
+			if h == nil || h.Blocks == nil || h.Pkg != fn.Pkg || h.Parent() != nil {
+				return false
+			}
+			for i, prm := range h.Params {
+				if i >= len(ci.Common().Args) {
+					continue
+				}
+				inner := func(x ssa.Instruction) bool {
+					if core.CalleeOf(x) != ctm {
+						return false
+					}
+					a := x.(ssa.CallInstruction).Common().Args
+					hs := core.Trace(a[len(a)-1], 0)
+					if !hs.Params[prm] {
+						return false
+					}
+					return judge(hs, core.Trace(ci.Common().Args[i], 0))
+				}
+				if fromCall != nil {
+					if len(core.FindInstrs(h, inner)) > 0 {
+						return true
+					}
+					continue
+				}
+				if _, must := core.MustReachAfter(h, nil, inner, nil); must {
+					return true
+				}
+			}
+			return false
 		}
 	}
 	for _, c := range core.FindInstrs(fn, core.IsCallTo(mjs)) {
